@@ -379,3 +379,106 @@ package decimal128
 //@ loop 3: decreases exp
 //@ call RoundingMode.round: V = ite(u128(sig) == 0 && digit == 0 && trunc == 0, 0, V)
 //@ props C01 C02 C03 C05 C10 C11 C20
+
+// reduce192 / reduce256: as reduce128 after exact-or-sticky division of the upper words (trunc >= 0 only:
+// the difference path of add, the only producer of trunc == -1, uses reduce128).
+
+//@ func RoundingMode.reduce192
+//@ returns (rsig, rexp)
+//@ logical V real
+//@ requires V > 0 && rm <= 5 && -32000 <= exp && exp <= 32000 && trunc >= 0
+//@ requires TH(rs(V, exp), u192(sig192), trunc)
+//@ requires trunc == 1 ==> u192(sig192) > M
+//@ ensures rs(V, 0) < 0.1 ==> u128(rsig) == 0 && rexp == 0
+//@ ensures RndOK(rm, neg, rs(V, rexp), u128(rsig), rexp) || (u128(rsig) == 0 && rexp == 0 && rs(V, 0) < 0.1)
+//@ ensures rexp > 12287 ==> 10*u128(rsig) > M
+//@ ensures u128(rsig) <= M && rexp >= 0
+//@ loop 1: invariant TH(rs(V, exp), u192(sig192), trunc) && trunc >= 0 && (trunc == 1 ==> u192(sig192) > M) && exp >= old(exp)
+//@ loop 1: invariant (exp <= old(exp) + 8) || (exp <= old(exp) + 12 && sig192[2] < 10000000000000000) || (exp <= old(exp) + 16 && sig192[2] < 1000000000000) || (exp <= old(exp) + 20 && sig192[2] < 100000000) || (exp <= old(exp) + 24 && sig192[2] < 10000) || (exp <= old(exp) + 28 && sig192[2] == 0)
+//@ loop 1: decreases u192(sig192)
+//@ loop 2: invariant RS(rs(V, exp), u128(sig), trunc, digit) || (digit == 0 && trunc >= 0 && TH(rs(V, exp), u128(sig), trunc) && (trunc != 0 ==> u128(sig) > M))
+//@ loop 2: invariant (digit != 0 || trunc != 0) ==> u128(sig) >= B110
+//@ loop 2: invariant trunc >= 0
+//@ loop 2: invariant (exp <= old(exp) + 33 && u128(sig) < 101*B110) || (exp <= old(exp) + 34 && u128(sig) < 11*B110) || (exp <= old(exp) + 35 && u128(sig) <= M)
+//@ loop 2: invariant exp >= old(exp)
+//@ loop 2: decreases u128(sig)
+//@ loop 3: invariant RS(rs(V, exp), u128(sig), trunc, digit) && u128(sig) <= M && -32000 <= exp && exp <= 32035
+//@ loop 3: invariant (digit != 0 || trunc != 0) ==> (u128(sig) >= B110 || exp <= 0)
+//@ loop 3: invariant trunc >= 0 && (exp >= 0 ==> rs(V, exp) >= 0.1)
+//@ loop 3: decreases 0 - exp
+//@ loop 4: invariant ((RS(rs(V, exp), u128(sig), trunc, digit) && rs(V, exp) >= 0.1) || (u128(sig) == 0 && digit == 0 && trunc == 0 && exp == 0 && rs(V, 0) < 0.1))
+//@ loop 4: invariant u128(sig) <= M && 0 <= exp && exp <= 32035
+//@ loop 4: invariant (digit != 0 || trunc != 0) ==> (u128(sig) >= B110 || exp == 0)
+//@ loop 4: decreases exp
+//@ call RoundingMode.round: V = ite(u128(sig) == 0 && digit == 0 && trunc == 0, 0, V)
+//@ props C01 C02 C20
+
+//@ func RoundingMode.reduce256
+//@ returns (rsig, rexp)
+//@ logical V real
+//@ requires V > 0 && rm <= 5 && -32000 <= exp && exp <= 32000 && trunc >= 0
+//@ requires TH(rs(V, exp), u256(sig256), trunc)
+//@ requires trunc == 1 ==> u256(sig256) > M
+//@ ensures rs(V, 0) < 0.1 ==> u128(rsig) == 0 && rexp == 0
+//@ ensures RndOK(rm, neg, rs(V, rexp), u128(rsig), rexp) || (u128(rsig) == 0 && rexp == 0 && rs(V, 0) < 0.1)
+//@ ensures rexp > 12287 ==> 10*u128(rsig) > M
+//@ ensures u128(rsig) <= M && rexp >= 0
+//@ loop 1: invariant TH(rs(V, exp), u256(sig256), trunc) && trunc >= 0 && (trunc == 1 ==> u256(sig256) > M) && exp >= old(exp)
+//@ loop 1: invariant (exp <= old(exp)) || (exp <= old(exp) + 19 && sig256[3] <= 1) || (exp <= old(exp) + 38 && sig256[3] == 0)
+//@ loop 1: decreases u256(sig256)
+//@ loop 2: invariant TH(rs(V, exp), u192(sig192), trunc) && trunc >= 0 && (trunc == 1 ==> u192(sig192) > M) && exp >= old(exp)
+//@ loop 2: invariant (exp <= old(exp) + 38 + 8) || (exp <= old(exp) + 38 + 12 && sig192[2] < 10000000000000000) || (exp <= old(exp) + 38 + 16 && sig192[2] < 1000000000000) || (exp <= old(exp) + 38 + 20 && sig192[2] < 100000000) || (exp <= old(exp) + 38 + 24 && sig192[2] < 10000) || (exp <= old(exp) + 38 + 28 && sig192[2] == 0)
+//@ loop 2: decreases u192(sig192)
+//@ loop 3: invariant RS(rs(V, exp), u128(sig), trunc, digit) || (digit == 0 && trunc >= 0 && TH(rs(V, exp), u128(sig), trunc) && (trunc != 0 ==> u128(sig) > M))
+//@ loop 3: invariant (digit != 0 || trunc != 0) ==> u128(sig) >= B110
+//@ loop 3: invariant trunc >= 0
+//@ loop 3: invariant (exp <= old(exp) + 71 && u128(sig) < 101*B110) || (exp <= old(exp) + 72 && u128(sig) < 11*B110) || (exp <= old(exp) + 73 && u128(sig) <= M)
+//@ loop 3: invariant exp >= old(exp)
+//@ loop 3: decreases u128(sig)
+//@ loop 4: invariant RS(rs(V, exp), u128(sig), trunc, digit) && u128(sig) <= M && -32000 <= exp && exp <= 32073
+//@ loop 4: invariant (digit != 0 || trunc != 0) ==> (u128(sig) >= B110 || exp <= 0)
+//@ loop 4: invariant trunc >= 0 && (exp >= 0 ==> rs(V, exp) >= 0.1)
+//@ loop 4: decreases 0 - exp
+//@ loop 5: invariant ((RS(rs(V, exp), u128(sig), trunc, digit) && rs(V, exp) >= 0.1) || (u128(sig) == 0 && digit == 0 && trunc == 0 && exp == 0 && rs(V, 0) < 0.1))
+//@ loop 5: invariant u128(sig) <= M && 0 <= exp && exp <= 32073
+//@ loop 5: invariant (digit != 0 || trunc != 0) ==> (u128(sig) >= B110 || exp == 0)
+//@ loop 5: decreases exp
+//@ call RoundingMode.round: V = ite(u128(sig) == 0 && digit == 0 && trunc == 0, 0, V)
+//@ props C02 C20
+
+//@ func RoundingMode.reduce64
+//@ returns (rsig, rexp)
+//@ logical V real
+//@ requires V > 0 && rm <= 5 && -32000 <= exp && exp <= 32000
+//@ requires rs(V, exp) == sig64
+//@ ensures rs(V, 0) < 0.1 ==> u128(rsig) == 0 && rexp == 0
+//@ ensures RndOK(rm, neg, rs(V, rexp), u128(rsig), rexp) || (u128(rsig) == 0 && rexp == 0 && rs(V, 0) < 0.1)
+//@ ensures rexp > 12287 ==> 10*u128(rsig) > M
+//@ ensures u128(rsig) <= M && rexp >= 0
+//@ loop 1: invariant RS(rs(V, exp), sig64, trunc, digit) && -32000 <= exp && exp <= 32000
+//@ loop 1: invariant (digit != 0 || trunc != 0) ==> exp <= 0
+//@ loop 1: invariant trunc >= 0 && (exp >= 0 ==> rs(V, exp) >= 0.1)
+//@ loop 1: decreases 0 - exp
+//@ loop 2: invariant ((RS(rs(V, exp), u128(sig), trunc, digit) && rs(V, exp) >= 0.1) || (u128(sig) == 0 && digit == 0 && trunc == 0 && exp == 0 && rs(V, 0) < 0.1))
+//@ loop 2: invariant u128(sig) <= M && 0 <= exp && exp <= 32000
+//@ loop 2: invariant (digit != 0 || trunc != 0) ==> exp == 0
+//@ loop 2: decreases exp
+//@ call RoundingMode.round: V = ite(u128(sig) == 0 && digit == 0 && trunc == 0, 0, V)
+//@ props C11 C20
+
+
+// ---------------------------------------------------------------------------
+// arith.go
+// ---------------------------------------------------------------------------
+
+//@ func Decimal.MulWithMode
+//@ returns (r)
+//@ logical V real
+//@ requires mode <= 5
+//@ requires !special(d) && !special(o) && coef(d) != 0 && coef(o) != 0 ==> V > 0 && rs(V, bexp(d) + bexp(o) - 6176) == coef(d) * coef(o)
+//@ ensures !special(d) && !special(o) ==> !isnan(r) && sign(r) == (sign(d) != sign(o))
+//@ ensures !special(d) && !special(o) && (coef(d) == 0 || coef(o) == 0) ==> !special(r) && coef(r) == 0
+//@ ensures !special(d) && !special(o) && coef(d) != 0 && coef(o) != 0 && isinf(r) ==> Ovf(mode, sign(r), rs(V, 12287))
+//@ ensures !special(d) && !special(o) && coef(d) != 0 && coef(o) != 0 && !special(r) ==>
+//@    (rs(V, 0) < 0.1 && coef(r) == 0) || (rs(V, 0) >= 0.1 && RndOK(mode, sign(r), rs(V, bexp(r)), coef(r), bexp(r)))
+//@ props C02 C15 C19 C20
